@@ -1,6 +1,7 @@
 """Contracts for the remaining public generators / function forms of exponax.ic (C18) and build_ic_set (C14, C18)."""
 from __future__ import annotations
 
+import math as _math
 import types
 
 import exponax._utils as _U
@@ -49,7 +50,8 @@ def _disc(e, D, tag):
 # ------------------------------------------------------------------------------- discontinuities
 Q = "exponax.ic._discontinuities."
 Contract(Q + "Discontinuities", props={"C18", "C20"},
-         cases=[Case(f"zero_mean={z},std_one={s},max_one={m}", lambda e, z=z, s=s, m=m: (((_disc(e, 1, "a"),),), {"zero_mean": z, "std_one": s, "max_one": m})) for (z, s, m) in FLAGS],
+         cases=[Case(f"zero_mean={z},std_one={s},max_one={m}", lambda e, z=z, s=s, m=m: (((_disc(e, 1, "a"),),), {"zero_mean": z, "std_one": s, "max_one": m})) for (z, s, m) in FLAGS]
+         + [Case("documented defaults (no option passed)", lambda e: (((_disc(e, 1, "a"),),), {}))],
          raises=[(ValueError, lambda discontinuity_list, zero_mean=True, std_one=False, max_one=False: _bad(zero_mean, std_one, max_one))],
          spec=lambda discontinuity_list, zero_mean=True, std_one=False, max_one=False:
          ObjSpec(R.Discontinuities, {"discontinuity_list": discontinuity_list, "zero_mean": zero_mean, "std_one": std_one, "max_one": max_one}))
@@ -67,7 +69,7 @@ Contract(Q + "Discontinuities.__call__", props={"C18"},
 Contract(Q + "RandomDiscontinuities", props={"C18", "C20"},
          cases=[Case(f"D={D},zero_mean={z},std_one={s},max_one={m}", lambda e, D=D, z=z, s=s, m=m: ((D,), {"domain_extent": sym.pos_real(e, "L"), "num_discontinuities": 2,
                                                                                                  "value_range": (sym.real(e, "v0"), sym.real(e, "v1")), "zero_mean": z, "std_one": s, "max_one": m}))
-                for D in DIMS for (z, s, m) in FLAGS],
+                for D in DIMS for (z, s, m) in FLAGS] + [Case("D=2,documented defaults (no option passed)", lambda e: ((2,), {}))],
          raises=[(ValueError, lambda D, domain_extent=1.0, num_discontinuities=3, value_range=(-1.0, 1.0), zero_mean=False, std_one=False, max_one=False: _bad(zero_mean, std_one, max_one))],
          spec=lambda D, domain_extent=1.0, num_discontinuities=3, value_range=(-1.0, 1.0), zero_mean=False, std_one=False, max_one=False:
          ObjSpec(R.RandomDiscontinuities, {"num_spatial_dims": D, "domain_extent": domain_extent, "num_discontinuities": num_discontinuities, "value_range": value_range,
@@ -140,6 +142,15 @@ Contract(G + "GaussianBlobs.__call__", props={"C18"},
          cases=[Case(f"D={D},blobs={n}", lambda e, D=D, n=n: ((make_instance(R.GaussianBlobs, {"blob_list": tuple(_blob(e, D, "abc"[j], j == 1) for j in range(n))}), _grid(e, D)), {}))
                 for D in DIMS for n in (1, 2, 3)],
          spec=lambda self, x: SI.gaussian_blobs(self, x))
+
+
+Contract(G + "RandomGaussianBlobs", props={"C18"},
+         cases=[Case(f"D={D},explicit options", lambda e, D=D: ((D,), {"domain_extent": sym.pos_real(e, "L"), "num_blobs": 2, "position_range": (sym.real(e, "p0"), sym.real(e, "p1")),
+                                                                    "variance_range": (sym.pos_real(e, "s0"), sym.pos_real(e, "s1")), "one_complement": True})) for D in DIMS]
+         + [Case("D=2,documented defaults (no option passed)", lambda e: ((2,), {}))],
+         spec=lambda D, domain_extent=1.0, num_blobs=1, position_range=(0.4, 0.6), variance_range=(0.005, 0.01), one_complement=False:
+         ObjSpec(R.RandomGaussianBlobs, {"num_spatial_dims": D, "domain_extent": domain_extent, "num_blobs": num_blobs, "position_range": position_range,
+                                         "variance_range": variance_range, "one_complement": one_complement}))
 
 
 def _rblob_self(e, D, n, oc):
@@ -235,12 +246,13 @@ def _rsw_bad(D, offset_range, std_one, max_one):
 Contract(W, props={"C18", "C20"},
          cases=[Case(f"D={D},offset_range={off},std_one={s},max_one={m}", lambda e, D=D, off=off, s=s, m=m: ((D,), {"domain_extent": sym.pos_real(e, "L"), "cutoff": sym.integer(e, "cut", lo=1),
                                                                                                          "offset_range": off, "std_one": s, "max_one": m}))
-                for D in (1, 2) for off in ((0.0, 0.0), (0.5, 1.5)) for s in (False, True) for m in (False, True)],
-         raises=[(ValueError, lambda D, domain_extent=1.0, cutoff=5, amplitude_range=(-1.0, 1.0), phase_range=(0.0, 0.0), offset_range=(0.0, 0.0), std_one=False, max_one=False:
+                for D in (1, 2) for off in ((0.0, 0.0), (0.5, 1.5)) for s in (False, True) for m in (False, True)]
+         + [Case("D=1,documented defaults (no option passed)", lambda e: ((1,), {}))],
+         raises=[(ValueError, lambda D, domain_extent=1.0, cutoff=5, amplitude_range=(-1.0, 1.0), phase_range=(0.0, 2 * _math.pi), offset_range=(0.0, 0.0), std_one=False, max_one=False:
                   _rsw_bad(D, offset_range, std_one, max_one))],
-         spec=lambda D, domain_extent=1.0, cutoff=5, amplitude_range=(-1.0, 1.0), phase_range=(0.0, 0.0), offset_range=(0.0, 0.0), std_one=False, max_one=False:
-         ObjSpec(R.RandomSineWaves1d, {"num_spatial_dims": D, "domain_extent": domain_extent, "cutoff": cutoff, "amplitude_range": amplitude_range, "offset_range": offset_range,
-                                       "std_one": std_one, "max_one": max_one}))
+         spec=lambda D, domain_extent=1.0, cutoff=5, amplitude_range=(-1.0, 1.0), phase_range=(0.0, 2 * _math.pi), offset_range=(0.0, 0.0), std_one=False, max_one=False:
+         ObjSpec(R.RandomSineWaves1d, {"num_spatial_dims": D, "domain_extent": domain_extent, "cutoff": cutoff, "amplitude_range": amplitude_range, "phase_range": phase_range,
+                                       "offset_range": offset_range, "std_one": std_one, "max_one": max_one}))
 
 
 def _rsw_self(e, s, m, cut):
